@@ -274,10 +274,18 @@ def build(name, mini):
     U = name.upper()
     types, ctors, handlers, mws = mini["types"], mini["ctors"], mini["handlers"], mini["mws"]
     observers, ehs, ebp = mini["observers"], mini["ehs"], mini["bp"]
+    import zlib
+    # `allow(error_fallback)` only silences a warning: which error handler is designated does not depend on it
+    lint = lambda tag, i: zlib.crc32(("%s/%s/%d" % (name, tag, i)).encode()) % 5 < 2
     for c in ctors:
         c.setdefault("out", c["i"])
         c.setdefault("cloning", False)
         c.setdefault("async", False)
+        c.setdefault("allow_fallback", lint("c", c["i"]))
+    for h in handlers:
+        h.setdefault("allow_fallback", lint("h", h["i"]))
+    for m_ in mws:
+        m_.setdefault("allow_fallback", lint("m", m_["i"]))
     for h in handlers:
         h["path"] = "/%s/r%d" % (name, h["i"])
         h.setdefault("method", "GET")
